@@ -23,7 +23,9 @@ Rules taken from the library-wide statements C09/C02 where the language leaves a
 
 A program that is not error-free in the sense of the property (empty or deleted handle used, multiplicity exceeded,
 unrelate of an unrelated pair, delete of an instance that still has links, read of an unset referential attribute,
-division by zero, step budget exceeded, variable read outside its block ...) raises `OutOfDomain`: the callers skip it.
+division by zero, step / invocation budget exceeded, variable read outside its block ...) raises `OutOfDomain`: the
+callers skip it.  The same holds for a side effect (create, delete, relate, unrelate, attribute write) performed while a
+where clause or an operand of and/or is being evaluated: how often those are evaluated is not fixed by the property.
 """
 
 KEYWORDS = ('select any many one from instances of related by where if elif else end while for each in break continue '
